@@ -222,6 +222,9 @@ class Engine:
         if typ.startswith("tuple["):
             parts = [x.strip() for x in typ[6:-1].split(",")]
             return VTuple([self.make_symbolic(path, f"{name}_{i}", t) for i, t in enumerate(parts)])
+        if typ == "file":
+            return path.alloc(HFile(path.fresh(name + "_path", S), path.fresh(name + "_content", BYTES), path.fresh(name + "_pos", I), "rb",
+                                    tail=path.fresh(name + "_tail", BYTES)))
         if typ == "set":
             return path.alloc(HSet(path.fresh(name + "_has", z3.ArraySort(KEY, B))))
         if typ.startswith("const:"):
@@ -394,7 +397,8 @@ class Engine:
     def discharge(self, ob, use_cvc5=True):
         t0 = time.time()
         s = z3.Solver()
-        s.set("timeout", self.timeout_ms)
+        seqish = any(k in str(ob.goal) for k in ("Concat", "seq.", "rest(", "Length"))
+        s.set("timeout", min(self.timeout_ms, 3000) if seqish else self.timeout_ms)
         for a in ob.pc:
             s.add(a)
         s.add(z3.Not(ob.goal))
@@ -410,12 +414,77 @@ class Engine:
                 ob.model = None
         else:
             ob.verdict = "unknown"
-            if use_cvc5:
-                v = run_cvc5(s, self.timeout_ms)
-                if v in ("unsat", "sat"):
-                    ob.verdict, ob.backend = v, "cvc5"
+            # Relevance portfolio: any subset of the path condition that already yields unsat is a proof (fewer assumptions).
+            # The sequence solvers are easily derailed by irrelevant facts (element-access side conditions, length
+            # facts of zero blocks), so a few syntactic filters are tried before the other back ends.
+            texts = None
+            for label, drop in (("-nth", ("seq.nth", "nth_i", "nth_u")), ("-zeros", ("zeros(",)), ("-nth-zeros", ("seq.nth", "nth_i", "nth_u", "zeros(")),
+                                ("-nth-zeros-kind", ("seq.nth", "nth_i", "nth_u", "zeros(", "fs_kind"))):
+                if texts is None:
+                    texts = [str(a) for a in ob.pc]
+                sub = [a for a, t in zip(ob.pc, texts) if not any(d in t for d in drop)]
+                if len(sub) == len(ob.pc):
+                    continue
+                s2 = z3.Solver()
+                s2.set("timeout", max(2000, self.timeout_ms // 3))
+                for a in sub:
+                    s2.add(a)
+                s2.add(z3.Not(ob.goal))
+                if s2.check() == z3.unsat:
+                    ob.verdict, ob.backend = "unsat", "z3" + label
+                    break
+                if use_cvc5:
+                    for name, fn in (("z3-4.8.12", run_z3_old), ("cvc5", run_cvc5)):
+                        if fn(s2, max(2000, self.timeout_ms // 3)) == "unsat":
+                            ob.verdict, ob.backend = "unsat", name + label
+                            break
+                    if ob.verdict == "unsat":
+                        break
+            if ob.verdict == "unknown" and seqish:
+                s.set("timeout", self.timeout_ms)
+                r2 = s.check()
+                if r2 == z3.unsat:
+                    ob.verdict, ob.backend = "unsat", "z3"
+                elif r2 == z3.sat:
+                    ob.verdict, ob.backend = "sat", "z3"
+                    try:
+                        ob.model = s.model()
+                    except z3.Z3Exception:
+                        ob.model = None
+            if use_cvc5 and ob.verdict == "unknown":
+                # other back ends on the same SMT-LIB text: the Debian z3 4.8.12 and cvc5 decide many sequence
+                # obligations on which z3 5.1 gives up (and vice versa)
+                for name, fn in (("z3-4.8.12", run_z3_old), ("cvc5", run_cvc5)):
+                    v = fn(s, self.timeout_ms)
+                    if v == "unsat":          # a refutation (sat) from a fallback is not trusted: no model to replay
+                        ob.verdict, ob.backend = v, name
+                        break
         ob.time = time.time() - t0
         return ob.verdict
+
+
+def run_z3_old(solver, timeout_ms):
+    try:
+        smt = solver.to_smt2()
+    except z3.Z3Exception:
+        return "unknown"
+    fd, fn = tempfile.mkstemp(suffix=".smt2", prefix="pyvc_")
+    try:
+        with os.fdopen(fd, "w") as fh:
+            fh.write(smt)
+        pr = subprocess.run(["/usr/bin/z3", f"-T:{max(1, timeout_ms // 1000)}", fn], capture_output=True, text=True,
+                            timeout=timeout_ms / 1000 + 5)
+        out = pr.stdout.strip().splitlines()
+        if out and out[0] in ("sat", "unsat"):
+            return out[0]
+        return "unknown"
+    except (subprocess.TimeoutExpired, OSError):
+        return "unknown"
+    finally:
+        try:
+            os.unlink(fn)
+        except OSError:
+            pass
 
 
 def run_cvc5(solver, timeout_ms):
